@@ -107,18 +107,18 @@ type Event struct {
 // Router implements simnet.Router with per-datagram fates, FIFO delivery per direction and
 // a complete log.
 type Router struct {
-	mu       sync.Mutex
-	nodes    map[string]simnet.PacketReceiver
-	server   string // server address; everything sent to it is C2S
-	Latency  time.Duration
-	Faults   FaultMap
-	log      []Event
-	full     []Event // every datagram since the router was created (StartPhase does not restart it)
-	count    [2]int
-	lastAt   [2]time.Time
-	start    time.Time
-	frozen   bool
-	bytes    [2]int
+	mu      sync.Mutex
+	nodes   map[string]simnet.PacketReceiver
+	server  string // server address; everything sent to it is C2S
+	Latency time.Duration
+	Faults  FaultMap
+	log     []Event
+	full    []Event // every datagram since the router was created (StartPhase does not restart it)
+	count   [2]int
+	lastAt  [2]time.Time
+	start   time.Time
+	frozen  bool
+	bytes   [2]int
 	// OnSend, if set, sees every datagram before its fate is applied (attacker / observer
 	// hook). It runs with the router lock released and may call Inject.
 	OnSend func(ev Event)
@@ -283,6 +283,13 @@ func (r *Router) Log() []Event {
 	r.mu.Lock()
 	defer r.mu.Unlock()
 	return append([]Event(nil), r.log...)
+}
+
+// SetOnSend installs the observer hook while traffic may already be flowing.
+func (r *Router) SetOnSend(f func(ev Event)) {
+	r.mu.Lock()
+	r.OnSend = f
+	r.mu.Unlock()
 }
 
 // FullLog returns every datagram seen since the router was created, across phases (for the
